@@ -58,23 +58,24 @@ fn schemas(doc: &Value) -> Option<&Map<String, Value>> {
     doc.get("components")?.get("schemas")?.as_object()
 }
 
-/// Follows implicit references; returns the node reached and the last implicit name passed.
-fn deref<'v>(doc: &'v Value, mut v: &'v Value, side: &str) -> Result<(&'v Value, Option<String>), String> {
+/// Follows implicit references; returns the node reached, the last implicit name passed, and
+/// whether the chain runs in a circle without ever reaching a schema (`let x = x;` is accepted and
+/// makes a component that refers to itself).
+fn deref<'v>(doc: &'v Value, mut v: &'v Value, side: &str) -> Result<(&'v Value, Option<String>, bool), String> {
     let mut last = None;
-    let mut hops = 0;
+    let mut seen: BTreeSet<&str> = BTreeSet::new();
     while let Some(name) = ref_target(v) {
         if !is_implicit(name) {
             break;
         }
+        if !seen.insert(name) {
+            return Ok((v, last, true));
+        }
         let target = schemas(doc).and_then(|s| s.get(name)).ok_or_else(|| format!("{side}: dangling reference to implicit component {name}"))?;
         last = Some(name.to_owned());
         v = target;
-        hops += 1;
-        if hops > 64 {
-            return Err(format!("{side}: a chain of implicit references through {name} never reaches a schema"));
-        }
     }
-    Ok((v, last))
+    Ok((v, last, false))
 }
 
 fn num_eq(a: &serde_json::Number, b: &serde_json::Number) -> bool {
@@ -96,8 +97,14 @@ impl<'a> Docs<'a> {
     }
 
     pub fn eq(&mut self, x: &Value, y: &Value, path: &str) -> Result<(), String> {
-        let (x, xn) = deref(self.a, x, "actual")?;
-        let (y, yn) = deref(self.b, y, "expected")?;
+        let (x, xn, xloop) = deref(self.a, x, "actual")?;
+        let (y, yn, yloop) = deref(self.b, y, "expected")?;
+        match (xloop, yloop) {
+            (true, true) => return Ok(()),
+            (true, false) => return Err(format!("{path}: the emitted document has a circle of implicit references that never reaches a schema, the expected one has {}", brief(y))),
+            (false, true) => return Err(format!("{path}: the expected document has a circle of implicit references that never reaches a schema, the emitted one has {}", brief(x))),
+            (false, false) => {}
+        }
         if let (Some(xn), Some(yn)) = (&xn, &yn) {
             // Coinduction: a pair of components already under comparison is assumed equal.
             if !self.assumed.insert((xn.clone(), yn.clone())) {
